@@ -336,7 +336,8 @@ def witness_search(tier, seed):
     import itertools
     texts = ["#VERSION:0.83;\n#TITLE:a;\n#NOTEDATA:;\n#STEPSTYPE:x;\n#NOTES:0000;\n#CREDIT:late;\n",
              "#TITLE:a;#title:b;#Attacks:x:y;#ARTIST;\n#NOTES:a:b:c:d:e:f:g;\n#SUBTITLE:s;",
-             "#version:1;#TITLE:t;", "", "#TITLE:a;\n#NOTES:a:b;"]
+             "#version:1;#TITLE:t;", "", "#TITLE:a;\n#NOTES:a:b;",
+             "#VERSION:0.83;#DISPLAYBPM:1:2;#NOTEDATA:;#DISPLAYBPM:90:180;#ATTACKS:a:b:c;#attacks;#NOTES:0000;#NOTEDATA:;#ATTACKS:x:y;"]
     for text, stray, strict in itertools.product(texts, ("", "junk\n"), (True, False)):
         for fk, en, nm in (("StringIO", "load", None), ("lines", "load", None), ("string", "loads", None),
                            ("TextIOWrapper", "load", "a.txt"), ("TextIOWrapper", "load", "b.SM"), ("TextIOWrapper", "load", "c.ssc"),
